@@ -21,7 +21,7 @@ class Unsupported(Exception):
     pass
 
 
-MAXCODE = 0x10FFFF  # A-UNI: z3's character range covers Python's code points
+MAXCODE = 0x2FFFF  # A-UNI: z3's character sort is U+0000..U+2FFFF; Python code points above it (planes 3-16) are not represented
 
 
 def _ch(c):
@@ -91,7 +91,9 @@ def _merge(iv):
 
 
 def _intervals_to_re(iv):
-    return _union(_range(lo, hi) for lo, hi in _merge(iv))
+    # clamp to z3's character range (A-UNI)
+    iv = [(lo, min(hi, MAXCODE)) for lo, hi in _merge(iv) if lo <= MAXCODE]
+    return _union(_range(lo, hi) for lo, hi in iv)
 
 
 def class_intervals(items, flags, is_bytes):
@@ -99,6 +101,7 @@ def class_intervals(items, flags, is_bytes):
     ignorecase = bool(flags & re.IGNORECASE)
     neg = False
     iv = []
+    cats = []
     for op, av in items:
         if op is sre_c.NEGATE:
             neg = True
@@ -107,27 +110,62 @@ def class_intervals(items, flags, is_bytes):
         elif op is sre_c.RANGE:
             iv.append((av[0], av[1]))
         elif op is sre_c.CATEGORY:
-            iv.extend(_category_intervals(av, ascii_only, is_bytes))
+            # categories are invariant under tolower (only cased letters change, and they stay word characters)
+            cats.extend(_category_intervals(av, ascii_only, is_bytes))
         else:
             raise Unsupported(f"class item {op}")
     if ignorecase:
-        iv = _casefold(iv)
+        iv = _casefold(iv, ascii_only or is_bytes)
+    iv = iv + cats
     top = 255 if is_bytes else MAXCODE
     if neg:
         iv = _complement(_merge(iv), top)
     return _merge(iv)
 
 
-def _casefold(iv):
+_REV = None
+
+
+def _fold_tables():
+    """reverse of sre's unicode_tolower over all code points (built once per process, ~0.4 s)"""
+    global _REV
+    if _REV is None:
+        import _sre
+        rev = {}
+        for x in range(0x110000):
+            lo = _sre.unicode_tolower(x)
+            if lo != x:
+                rev.setdefault(lo, []).append(x)
+        _REV = rev
+    return _REV
+
+
+def fold_set(cp, ascii_only):
+    """code points that a literal `cp` matches under re.IGNORECASE (as sre compiles it: tolower + re._casefix._EXTRA_CASES)"""
+    if ascii_only:
+        ch = chr(cp)
+        return sorted({cp, ord(ch.lower()), ord(ch.upper())}) if cp < 128 and ch.isalpha() else [cp]
+    import _sre
+    from re import _casefix
+    rev = _fold_tables()
+    lo = _sre.unicode_tolower(cp)
+    targets = {lo} | set(_casefix._EXTRA_CASES.get(lo, ()))
+    out = set()
+    for t in targets:
+        out.add(t)
+        out.update(rev.get(t, ()))
+    return sorted(out)
+
+
+def _casefold(iv, ascii_only=False):
     out = list(iv)
     for lo, hi in iv:
-        for c in range(lo, min(hi, 0x7F) + 1):
-            ch = chr(c)
-            if ch.isalpha():
-                out.append((ord(ch.lower()), ord(ch.lower())))
-                out.append((ord(ch.upper()), ord(ch.upper())))
-        if hi > 0x7F:
-            raise Unsupported("IGNORECASE beyond ASCII")
+        if hi - lo > 4096:
+            # a wide range: closed under case folding except at its borders - refuse rather than enumerate
+            raise Unsupported("IGNORECASE over a very wide character range")
+        for c in range(lo, hi + 1):
+            for x in fold_set(c, ascii_only):
+                out.append((x, x))
     return out
 
 
@@ -143,13 +181,14 @@ def _seq(nodes, flags, is_bytes):
 def _node(op, av, flags, is_bytes):
     top = 255 if is_bytes else MAXCODE
     if op is sre_c.LITERAL:
-        if flags & re.IGNORECASE and chr(av).isalpha():
-            if av > 0x7F:
-                raise Unsupported("IGNORECASE beyond ASCII")
-            return _union([z3.Re(_ch(ord(chr(av).lower()))), z3.Re(_ch(ord(chr(av).upper())))])
+        if flags & re.IGNORECASE:
+            fs = fold_set(av, bool(flags & re.ASCII) or is_bytes)
+            if len(fs) > 1:
+                return _union([z3.Re(_ch(x)) for x in fs])
         return z3.Re(_ch(av))
     if op is sre_c.NOT_LITERAL:
-        return _intervals_to_re(_complement([(av, av)], top))
+        ex = fold_set(av, bool(flags & re.ASCII) or is_bytes) if flags & re.IGNORECASE else [av]
+        return _intervals_to_re(_complement(_merge([(x, x) for x in ex]), top))
     if op is sre_c.ANY:
         if flags & re.DOTALL:
             return _intervals_to_re([(0, top)])
@@ -190,7 +229,67 @@ def translate(pattern, flags=0):
     if is_bytes:
         flags &= ~re.UNICODE
     nodes = list(parsed)
-    return _seq(nodes, flags, is_bytes)
+    lang = _seq(nodes, flags, is_bytes)
+    TRANSLATED[(pattern, int(flags))] = lang
+    return lang
+
+
+TRANSLATED = {}     # every pattern translated in this process: re-checked against `re` itself by differential()
+
+
+def differential(samples=150, seed=0):
+    """CPython cross-check of the translation: random words over an alphabet drawn from each pattern (plus case variants,
+    special-casing code points and separators) must be in the translated language exactly when re.fullmatch accepts them.
+    Returns (number of comparisons, list of mismatches)."""
+    import random
+    rnd = random.Random(seed)
+    n, bad = 0, []
+    extra = "sSſkKKiIıİ \t\n\xa0\x85<>/=-_.,:;'\"aZ09é"
+    for (pattern, flags), lang in list(TRANSLATED.items()):
+        is_bytes = isinstance(pattern, bytes)
+        ptxt = pattern.decode("latin-1") if is_bytes else pattern
+        try:
+            rx = re.compile(pattern, flags & ~re.UNICODE if is_bytes else flags)
+        except re.error:
+            continue
+        lits = [c for c in ptxt if c.isalnum() or c in "<>/=-_ ,:;'\"!%{}#"]
+        alphabet = "".join(dict.fromkeys(lits + [c.swapcase() for c in lits] + list(extra)))
+        if is_bytes:
+            alphabet = "".join(c for c in alphabet if ord(c) < 256) + "\xe9\xff"
+        # seeds: words built by walking the pattern's literals (so that long literal patterns are hit), then mutated
+        base = re.sub(r"\\[sSwWdD][*+?]?|\(\?[:P<][^)]*\)|[\[\]()|?*+\\^$]|\{[0-9,]*\}", "", ptxt)
+        for k in range(samples):
+            mode = rnd.random()
+            if mode < 0.4:
+                w = "".join(rnd.choice(alphabet) for _ in range(rnd.randint(0, 8)))
+            else:
+                w = list(base)
+                for _ in range(rnd.randint(0, 3)):
+                    if w and rnd.random() < 0.5:
+                        w[rnd.randrange(len(w))] = rnd.choice(alphabet)
+                    elif w and rnd.random() < 0.5:
+                        del w[rnd.randrange(len(w))]
+                    else:
+                        w.insert(rnd.randint(0, len(w)), rnd.choice(alphabet))
+                w = "".join(c.swapcase() if rnd.random() < 0.2 else c for c in w)
+            if is_bytes and any(ord(c) > 255 for c in w):
+                continue
+            want = rx.fullmatch(w.encode("latin-1") if is_bytes else w) is not None
+            v = z3.simplify(z3.InRe(z3.StringVal(w), lang))
+            if z3.is_true(v) or z3.is_false(v):
+                got = z3.is_true(v)
+            else:
+                sv = z3.Solver()
+                sv.set("timeout", 5000)
+                sv.add(v)
+                r = sv.check()
+                if r == z3.unknown:
+                    continue
+                got = r == z3.sat
+            n += 1
+            if got != want:
+                bad.append({"pattern": ptxt, "flags": int(flags), "word": w, "translated_language_accepts": got, "re_fullmatch_accepts": want})
+    return n, bad
 
 
 def split_end_anchor(pattern):
